@@ -130,22 +130,31 @@ def make_recording_evaluator(rec):
 
         @staticmethod
         def _threshold(f, time):
-            """base b such that f(d) <=> time - d >= b, found by probing the closure."""
+            """base b such that f(d) <=> time - d >= b, found by probing the closure: f must hold at -70 (time + 70 >= b),
+            hold on an initial segment and fail from then on; the end of the segment is found by doubling and bisection, so
+            that any distance between the time and the base is measured (not only the small ones).
+            -> the base | ('none',) f(-70) is false | ('shape',) f is not an initial segment | ('all',) no end below 10**13"""
             if f is None:
                 return None
             try:
-                best = None
-                for d in range(-70, 71):
-                    if f(d):
-                        best = d
-                    else:
-                        if best is not None:
-                            break
-                if best is None:
+                if not f(-70):
                     return ('none',)
-                if best == 70:
-                    return ('all',)
-                return time - best
+                d, step = -70, 1
+                while f(d + step):
+                    d += step
+                    step *= 2
+                    if d > 10 ** 13:
+                        return ('all',)
+                lo, hi = d, d + step
+                while hi - lo > 1:
+                    mid = (lo + hi) // 2
+                    if f(mid):
+                        lo = mid
+                    else:
+                        hi = mid
+                if not (f(lo - 5) and f(lo - 1) and f(lo)) or f(lo + 1) or f(lo + 2) or f(lo + 64) or f(lo + 10 ** 6):
+                    return ('shape',)
+                return time - lo
             except KeyError:
                 return None
 
@@ -517,8 +526,15 @@ class Scenario:
             obj = self.interp.bind(bi)
         else:
             klass = self.klass
-            obj = self.interp.bind_property_statechart(
-                arg, interpreter_klass=lambda sc, clock=None: Interpreter(sc, evaluator_klass=klass, clock=clock))
+            if lid % 2 == 1:
+                # the older way of binding (still documented, deprecated): a ready-made interpreter is handed over
+                import warnings
+                with warnings.catch_warnings():
+                    warnings.simplefilter('ignore')
+                    obj = self.interp.bind_property_statechart(Interpreter(arg, evaluator_klass=klass))
+            else:
+                obj = self.interp.bind_property_statechart(
+                    arg, interpreter_klass=lambda sc, clock=None: Interpreter(sc, evaluator_klass=klass, clock=clock))
             pi = obj._interpreter
             self.rec.interp_id(pi)
             self.props[lid] = pi
